@@ -1,6 +1,7 @@
 /-
   Concrete heaps and histories for C01: a garbage Box on a shared target (the release loop frees a reachable object),
-  stale mark bits left by a mark phase that an exception left (the next collection frees a reachable object), an
+  stale mark bits left by a mark phase that an exception left (before fix d8f0c4f the next collection freed a reachable
+  object), a Thread object other than `current(Thread)` as the sole path to an object stored in its table, an
   in-contract Box; and the link between the decidable hypothesis `boxExclusive` and its statement over reachability.
 -/
 import Cello.Heap
